@@ -15,6 +15,7 @@ import Engeom.Driver.C19
 import Engeom.Driver.C13
 import Engeom.Driver.C07
 import Engeom.Driver.C10
+import Engeom.Driver.C20
 
 def dispatch (op : String) (args : List String) : Option String :=
   match (op.splitOn ".").head! with
@@ -36,6 +37,7 @@ def dispatch (op : String) (args : List String) : Option String :=
   | "chain" | "section" => DrvC13.handle op args
   | "align" => DrvC07.handle op args
   | "airfoil" => DrvC10.handle op args
+  | "flatten" => DrvC20.handle op args
   | _ => none
 
 partial def loop (h : IO.FS.Stream) (out : IO.FS.Stream) : IO Unit := do
